@@ -210,6 +210,24 @@ func Inventory(dir string) (map[string]string, error) {
 	return inv, nil
 }
 
+// Files lists the home file (relative to the module root) of every function declared in
+// the tree at dir.
+func Files(dir string) (map[string]string, error) {
+	st, err := load(dir, nil)
+	if err != nil {
+		return nil, err
+	}
+	out := map[string]string{}
+	for _, fi := range st.funcs() {
+		rel, _ := filepath.Rel(dir, st.fileName(fi.decl.Pos()))
+		if strings.HasSuffix(rel, "_test.go") {
+			continue
+		}
+		out[fi.name] = rel
+	}
+	return out, nil
+}
+
 // Source is the confirmed declaration of an unexported function: the file it lives in
 // (relative to the module root) and its text, doc comment included.
 type Source struct {
